@@ -129,7 +129,11 @@ class Program:
                 ci = ClassInfo(f"{mi.name}.{node.name}", mi, node)
                 for sub in node.body:
                     if isinstance(sub, ast.FunctionDef):
-                        ci.methods[sub.name] = FuncInfo(f"{ci.qualname}.{sub.name}", mi, sub, ci)
+                        # `@name.setter` / `@name.deleter` define the other halves of the property `name`: kept under their own keys, the getter stays
+                        role = next((d.attr for d in sub.decorator_list if isinstance(d, ast.Attribute) and d.attr in ('setter', 'deleter', 'getter')
+                                     and isinstance(d.value, ast.Name) and d.value.id == sub.name), None)
+                        key = sub.name if role in (None, 'getter') else f"{sub.name}.{role}"
+                        ci.methods[key] = FuncInfo(f"{ci.qualname}.{key}", mi, sub, ci)
                 mi.classes[node.name] = ci
             elif isinstance(node, ast.Assign) and len(node.targets) == 1 and isinstance(node.targets[0], ast.Name):
                 mi.constants[node.targets[0].id] = node.value
